@@ -144,6 +144,9 @@ type shardResult struct {
 	wall      float64
 	incViols  []*ev.Violation
 	startSkip int64
+	// cpuExceeded: set when the controller ended the worker because one journaled case used up
+	// its processor-time budget
+	cpuExceeded string
 }
 
 type finding struct {
@@ -260,6 +263,7 @@ func runCheck(id, tier string, seed uint64) int {
 func runShard(bin, id, tier string, seed uint64, j *job, shard int, work string) []*shardResult {
 	var all []*shardResult
 	skip := int64(0)
+	nonTerm := 0
 	for attempt := 0; attempt <= j.maxResume; attempt++ {
 		r := runWorker(bin, id, tier, seed, j, shard, attempt, skip, work)
 		all = append(all, r)
@@ -269,6 +273,13 @@ func runShard(bin, id, tier string, seed uint64, j *job, shard int, work string)
 		}
 		if r.journal == nil || r.journal.D <= skip || r.timedOut && !j.resumeAfterTimeout {
 			break
+		}
+		// every non-terminating call costs its whole processor-time budget: two witnesses
+		// per shard are enough
+		if c, _, _ := classifyDeath(r); c == "non-terminating" {
+			if nonTerm++; nonTerm >= 2 {
+				break
+			}
 		}
 		skip = r.journal.D
 	}
@@ -313,7 +324,7 @@ func runWorker(bin, id, tier string, seed uint64, j *job, shard, attempt int, sk
 	ef, _ := os.Create(errPath)
 	cmd.Stderr = ef
 	cmd.Stdout = ef
-	cmd.SysProcAttr = &syscall.SysProcAttr{Setpgid: true}
+	cmd.SysProcAttr = &syscall.SysProcAttr{Setpgid: true, Pdeathsig: syscall.SIGKILL}
 	r := &shardResult{job: j, shard: shard, attempt: attempt, startSkip: skip}
 	start := time.Now()
 	if err := cmd.Start(); err != nil {
@@ -323,6 +334,41 @@ func runWorker(bin, id, tier string, seed uint64, j *job, shard, attempt int, sk
 	}
 	done := make(chan error, 1)
 	go func() { done <- cmd.Wait() }()
+	// Processor-time bound on one journaled case (jobs whose cases are bounded by contract): the
+	// worker's CPU time (/proc/<pid>/stat, so a loaded machine does not count against it) is
+	// compared with the progress of its journal. A case that has consumed the whole budget without
+	// finishing gets a goroutine dump (SIGQUIT) and is classified from that dump.
+	stopCPU := make(chan struct{})
+	if j.cpuBudgetS > 0 {
+		go func() {
+			var lastSeq int64 = -1
+			var cpu0 float64
+			t := time.NewTicker(time.Second)
+			defer t.Stop()
+			for {
+				select {
+				case <-stopCPU:
+					return
+				case <-t.C:
+				}
+				seq, ok1 := journalSeq(jPath)
+				cpu, ok2 := procCPU(cmd.Process.Pid)
+				if !ok1 || !ok2 {
+					continue
+				}
+				if seq != lastSeq {
+					lastSeq, cpu0 = seq, cpu
+					continue
+				}
+				if cpu-cpu0 > float64(j.cpuBudgetS) {
+					r.cpuExceeded = fmt.Sprintf("case #%d consumed %.0f s of processor time without finishing (budget %d s)", seq, cpu-cpu0, j.cpuBudgetS)
+					cmd.Process.Signal(syscall.SIGQUIT)
+					return
+				}
+			}
+		}()
+	}
+	defer close(stopCPU)
 	limit := j.timeout(tier)
 	var err error
 	select {
@@ -441,6 +487,60 @@ func raceSignature(block string) string {
 	return strings.Join(sigs, "+")
 }
 
+// journalSeq reads the sequence number of the case the worker journaled last.
+func journalSeq(path string) (int64, bool) {
+	f, err := os.Open(path)
+	if err != nil {
+		return 0, false
+	}
+	defer f.Close()
+	var b [8]byte
+	if _, err := f.ReadAt(b[:], 32); err != nil {
+		return 0, false
+	}
+	return int64(binary.LittleEndian.Uint64(b[:])), true
+}
+
+// procCPU returns the user+system CPU seconds of a process.
+func procCPU(pid int) (float64, bool) {
+	raw, err := os.ReadFile(fmt.Sprintf("/proc/%d/stat", pid))
+	if err != nil {
+		return 0, false
+	}
+	i := bytes.LastIndexByte(raw, ')')
+	if i < 0 {
+		return 0, false
+	}
+	f := strings.Fields(string(raw[i+1:]))
+	if len(f) < 13 {
+		return 0, false
+	}
+	ut, e1 := strconv.ParseFloat(f[11], 64)
+	st, e2 := strconv.ParseFloat(f[12], 64)
+	if e1 != nil || e2 != nil {
+		return 0, false
+	}
+	return (ut + st) / 100, true // USER_HZ is 100 on Linux
+}
+
+// runningLibraryGoroutine returns the first goroutine of a dump that is running or runnable
+// (not blocked) with a frame of the library on its stack.
+func runningLibraryGoroutine(dump string) string {
+	for _, g := range strings.Split(dump, "\n\n") {
+		hdr := g
+		if k := strings.Index(g, "\n"); k > 0 {
+			hdr = g[:k]
+		}
+		if !strings.HasPrefix(hdr, "goroutine ") || !(strings.Contains(hdr, "[running") || strings.Contains(hdr, "[runnable")) {
+			continue
+		}
+		if strings.Contains(g, "github.com/minio/simdjson-go.") {
+			return headLines(g, 30)
+		}
+	}
+	return ""
+}
+
 // classifyDeath inspects a dead worker's stderr.
 func classifyDeath(r *shardResult) (class string, violation bool, detail string) {
 	s := r.stderr
@@ -449,6 +549,11 @@ func classifyDeath(r *shardResult) (class string, violation bool, detail string)
 		tail = tail[:3000] + "\n...\n" + tail[len(tail)-3000:]
 	}
 	switch {
+	case r.cpuExceeded != "":
+		if g := runningLibraryGoroutine(s); g != "" {
+			return "non-terminating", true, r.cpuExceeded + "; CPU time of the process, not wall-clock. A goroutine is executing (not blocked) in the library:\n" + g
+		}
+		return "timeout", false, r.cpuExceeded + "; the goroutine dump shows no goroutine executing in the library\n" + tail
 	case strings.Contains(s, "RESOURCE-BOUND-EXCEEDED"):
 		i := strings.Index(s, "RESOURCE-BOUND-EXCEEDED")
 		return "unbounded-memory", true, "the call under test made the live heap exceed the resource bound (non-terminating or unbounded traversal)\n" + headLines(s[i:], 50)
